@@ -42,6 +42,11 @@ class Real:
     def dup(self, s):
         return s.dup()
 
+    def alarm(self, d):
+        import signal
+        signal.signal(signal.SIGALRM, lambda *a: None)
+        signal.setitimer(signal.ITIMER_REAL, d)
+
 
 class SimB:
     name = 'sim'
@@ -64,6 +69,19 @@ class SimB:
 
     def dup(self, s):
         return s.dup()
+
+    def alarm(self, d):
+        import signal
+        from simos.shims import SignalFacade, sim_kill
+        from simos.sync import Thread, cur_sim
+        sim = cur_sim()
+        SignalFacade.signal(signal.SIGALRM, lambda *a: None)
+        pid = sim.me().proc.pid
+
+        def fire():
+            sim.sleep(d)
+            sim_kill(pid, signal.SIGALRM)
+        Thread(target=fire, daemon=True).start()
 
 
 def linger(B, s, on, secs):
@@ -312,6 +330,15 @@ def sc_getpeername_after_reset(B):
     B.settle()
     o.append(obs(lambda: isinstance(s3.getpeername(), tuple)))
     return o
+
+
+def sc_send_short_on_signal(B):
+    # a blocking send() whose buffer is full returns a short count when a handled signal interrupts it; nobody reads
+    l, c, s = pair(B)
+    big = b'z' * (8 << 20)
+    B.alarm(0.2)
+    n = c.send(big)
+    return [('short', 0 < n < len(big))]
 
 
 SCENARIOS = [v for k, v in sorted(globals().items()) if k.startswith('sc_')]
